@@ -4,7 +4,7 @@ From Coq Require Import List NArith Bool Lia.
 From Verif Require Import Common.Util Bft.Tree Bft.Model Bft.Quorum Bft.ProofsTally Bft.ProofsChain Bft.ProofsNode
   Bft.Safety Bft.ProofsWitness Bft.ProofsFinal Bft.ProofsMonotone Bft.ProofsCommit
   Bft.ProofsFind Bft.ProofsLive Bft.ProofsLive2 Bft.ProofsVote Bft.ProofsSuffix Bft.ProofsSafety
-  Bft.ProofsOrder Bft.ProofsTree2 Bft.ProofsCasts Bft.ProofsRun Bft.ProofsLink Bft.ProofsGap Bft.ProofsWitness2 Bft.SchedScore.
+  Bft.ProofsOrder Bft.ProofsTree2 Bft.ProofsCasts Bft.ProofsRun Bft.ProofsLink Bft.ProofsGap Bft.ProofsWitness2 Bft.SchedScore Bft.ProofsMonotone2 Bft.ProofsSync.
 Import ListNotations.
 Open Scope N_scope.
 
@@ -95,6 +95,32 @@ Theorem finalized_moves_forward guard c r e b packing :
   exists x, In x (chain_of r (b_id b)) /\ e_fin e' = b_id x /\ idnum (e_fin e) <= b_num x.
 Proof. exact (commit_block_finalized guard c r e b packing). Qed.
 
+(* 3b'. own proposals (proposeAndCommit has no Accepts test).  A proposal on a best block that descends from finalized keeps
+        finalized on its own ancestry and the new block descends from it.  Without that premise it does not (witness: three
+        Byzantine validators of four make two conflicting branches commit; the node finalizes 4S by import, its best block
+        stays on branch W, packing the store point 15W finalizes 8W, not a descendant of 4S).  The NUMBER of finalized never
+        decreases in any case (finalized_moves_forward).  So the single-node clause is proved for all histories of imports
+        and restarts, and for own proposals under the premise "best descends from finalized", which can only fail after
+        two conflicting branches have both committed. *)
+Theorem finalized_monotone_own_proposal c nd b : 0 < c_L c -> inv c nd -> fin_ok nd -> honest_ok c nd b = true ->
+  known (n_repo nd) (b_id b) = false -> has_block (n_repo nd) (n_best nd) (e_fin (n_eng nd)) = true ->
+  let nd' := fst (fst (propose true c nd b)) in
+  has_block (n_repo nd') (e_fin (n_eng nd')) (e_fin (n_eng nd)) = true /\
+  has_block (n_repo nd') (b_id b) (e_fin (n_eng nd)) = true /\ fin_ok nd'.
+Proof. intros HL. exact (propose_monotone c HL nd b). Qed.
+
+Theorem own_proposal_off_finalized_branch_not_monotone :
+  honest_ok cfg4 pm_node w15 = true /\ e_fin (n_eng pm_node) = b_id (sb 4 2 false) /\
+  let nd' := fst (fst (propose true cfg4 pm_node w15)) in
+  e_fin (n_eng nd') = b_id (wb 8 2 false) /\ has_block (n_repo nd') (e_fin (n_eng nd')) (e_fin (n_eng pm_node)) = false /\
+  has_block (n_repo pm_node) (n_best pm_node) (e_fin (n_eng pm_node)) = false.
+Proof. exact propose_not_monotone_witness. Qed.
+
+Example finalized_monotone_example : (* the F1 tree: finalized moves genesis -> a4 along the import history *)
+  monotone_from (b_id gen) (fin_trace cfg4 true (init_node gen 1) f1_blocks) /\
+  In (b_id (a 4)) (map snd (fin_trace cfg4 true (init_node gen 1) f1_blocks)).
+Proof. split; [vm_compute; repeat split; reflexivity | apply mem_In; vm_compute; reflexivity]. Qed.
+
 (* 3c. liveness (third sentence).
    (i)  On a node that has seen only one chain (every stored block lies on the chain of every later one), whatever it
         voted before and whether its votes record is live or rebuilt after a restart, ShouldVote answers COM exactly
@@ -139,16 +165,63 @@ Theorem finalized_advances_at_store_point c r e b a kb : 0 < c_L c ->
             e_fin (fst (commit_block true c r e b false)) = b_id y.
 Proof. intros HL. exact (commit_finalizes c HL r e b a kb). Qed.
 
-(* non-vacuity: n = 4, L = 4, blocks 1..3 non-COM (first round), 4..7 COM, four distinct signers per epoch *)
-Definition live_chain : list blk :=
-  rev (gen :: map (fun k => mkB (mkid k 1) (mkid (k - 1) 1) (k mod 4 + 1) (3 <? k) k) [1;2;3;4;5;6;7]).
-Example linear_liveness_example :
-  grounded live_chain /\ honest_chain cfg4 live_chain /\
-  s_comm (state_pure cfg4 live_chain) = true /\ quality_pure cfg4 live_chain = 2.
-Proof.
-  split; [vm_compute; intuition reflexivity|]. split; [|vm_compute; split; reflexivity].
-  unfold live_chain. cbn [rev map app honest_chain]. repeat split; intros _; vm_compute; reflexivity.
-Qed.
+(* 3d. the liveness sentence over multi-node runs.  sync_run n ps = rounds "node i proposes b (on its own best block, with
+       its own ShouldVote bit), then b is delivered to every node"; all validators honest (Byzantine set empty).
+       (i)   at the end every node stores exactly the one global chain, its best block is the head, and every block carries
+             the COM bit of the com rule (honest_chain) - so the hypotheses of linear_liveness hold by construction;
+       (ii)  every closed epoch kb >= 1 of that chain with a quorum of signers is justified, and committed once the chain
+             held a justified epoch;
+       (iii) when the block closing epoch kb >= 2 has been delivered after two such epochs, EVERY node's finalized
+             checkpoint is the first block of epoch kb - 1: finality keeps advancing. *)
+Theorem timely_honest_run_single_chain c g masters ps : 0 < c_L c -> b_num g = 0 -> NoDup masters ->
+  let evs := sync_run (length masters) ps in
+  let tree := seen_after [g] evs in
+  valid_run_b true c [] (map (init_node g) masters) [g] evs = true -> known tree (b_parent g) = false ->
+  grounded tree /\ honest_chain c tree /\
+  forall i nd, nth_error (world_after c (map (init_node g) masters) evs) i = Some nd ->
+    n_repo nd = tree /\ exists p t, tree = p :: t /\ n_best nd = b_id p.
+Proof. intros HL Hg Hn. exact (sync_run_one_chain c HL g Hg masters Hn ps). Qed.
+
+Theorem timely_honest_run_epochs_commit c g masters ps l1 b t kb : 0 < c_L c -> b_num g = 0 -> NoDup masters ->
+  let evs := sync_run (length masters) ps in
+  let tree := seen_after [g] evs in
+  valid_run_b true c [] (map (init_node g) masters) [g] evs = true -> known tree (b_parent g) = false ->
+  tree = l1 ++ b :: t -> b_num b = kb * c_L c + c_L c - 1 -> 1 <= kb ->
+  (if thr_weight c =? 0 then thr_votes c <? N.of_nat (length (signers (snd (epoch_info c (b :: t)))))
+   else thr_weight c <? sumw (weight_of c) (signers (snd (epoch_info c (b :: t))))) = true ->
+  1 <= quality_pure c (suffix_at (kb * c_L c - 1) (b :: t)) ->
+  s_just (state_pure c (b :: t)) = true /\ s_comm (state_pure c (b :: t)) = true /\
+  quality_pure c (b :: t) = quality_pure c (suffix_at (kb * c_L c - 1) (b :: t)) + 1.
+Proof. intros HL Hg Hn. exact (sync_run_epochs_commit c HL g Hg masters Hn ps l1 b t kb). Qed.
+
+Theorem timely_honest_run_finality_advances c g masters ps i b kb : 0 < c_L c -> b_num g = 0 -> NoDup masters ->
+  let evs := sync_run (length masters) (ps ++ [(i, b)]) in
+  let tree := seen_after [g] evs in
+  valid_run_b true c [] (map (init_node g) masters) [g] evs = true -> known tree (b_parent g) = false ->
+  b_num b = kb * c_L c + c_L c - 1 -> 2 <= kb ->
+  (if thr_weight c =? 0 then thr_votes c <? N.of_nat (length (signers (snd (epoch_info c tree))))
+   else thr_weight c <? sumw (weight_of c) (signers (snd (epoch_info c tree)))) = true ->
+  (if thr_weight c =? 0 then thr_votes c <? N.of_nat (length (signers (snd (epoch_info c (suffix_at (kb * c_L c - 1) tree)))))
+   else thr_weight c <? sumw (weight_of c) (signers (snd (epoch_info c (suffix_at (kb * c_L c - 1) tree))))) = true ->
+  1 <= quality_pure c (suffix_at ((kb - 1) * c_L c - 1) tree) ->
+  exists y, block_at tree (b_id b) ((kb - 1) * c_L c) = Some y /\ b_num y = (kb - 1) * c_L c /\
+    forall j nd, nth_error (world_after c (map (init_node g) masters) evs) j = Some nd -> e_fin (n_eng nd) = b_id y.
+Proof. intros HL Hg Hn. exact (sync_run_finality_advances c HL g Hg masters Hn ps i b kb). Qed.
+
+(* non-vacuity: four validators, L = 4, eleven rounds (signers rotate, scores 1..11, blocks 1..3 non-COM, 4..11 COM): the run
+   is valid, every hypothesis of (iii) holds with kb = 2, and all four nodes finalize block 4 *)
+Definition lb (k : N) : blk := mkB (mkid k 1) (mkid (k - 1) 1) (k mod 4 + 1) (3 <? k) k.
+Definition live_ps : list (nat * blk) := map (fun k => (N.to_nat (k mod 4), lb k)) [1;2;3;4;5;6;7;8;9;10].
+Definition live_run : list event := sync_run 4 (live_ps ++ [(3%nat, lb 11)]).
+Example timely_run_example :
+  let tree := seen_after [gen] live_run in
+  valid_run_b true cfg4 [] (map (init_node gen) [1;2;3;4]) [gen] live_run = true /\ known tree (b_parent gen) = false /\
+  b_num (lb 11) = 2 * 4 + 4 - 1 /\
+  (thr_votes cfg4 <? N.of_nat (length (signers (snd (epoch_info cfg4 tree))))) = true /\
+  (thr_votes cfg4 <? N.of_nat (length (signers (snd (epoch_info cfg4 (suffix_at (2 * 4 - 1) tree)))))) = true /\
+  1 <= quality_pure cfg4 (suffix_at ((2 - 1) * 4 - 1) tree) /\
+  map (fun nd => e_fin (n_eng nd)) (world_after cfg4 (map (init_node gen) [1;2;3;4]) live_run) = [b_id (lb 4); b_id (lb 4); b_id (lb 4); b_id (lb 4)].
+Proof. cbv zeta. vm_compute. repeat split; try reflexivity; discriminate. Qed.
 
 (* 4. general safety.  The statement over all valid runs (every honest block proposed by its signer on its own best
       block with the engine's COM bit, score increments within 1..n being *data* of the run, fewer than a third
@@ -376,6 +449,11 @@ Print Assumptions honest_vote_on_one_chain.
 Print Assumptions quorum_is_justified.
 Print Assumptions linear_liveness.
 Print Assumptions finalized_advances_at_store_point.
+Print Assumptions finalized_monotone_own_proposal.
+Print Assumptions own_proposal_off_finalized_branch_not_monotone.
+Print Assumptions timely_honest_run_single_chain.
+Print Assumptions timely_honest_run_epochs_commit.
+Print Assumptions timely_honest_run_finality_advances.
 Print Assumptions node_invariants_along_events.
 Print Assumptions lemma_A_head_quality_monotone.
 Print Assumptions lemma_B_com_lock.
